@@ -149,8 +149,9 @@ impl From<CrDateTime<Utc>> for DateTime<Microsecond> {
 impl From<CrDateTime<Utc>> for DateTime<Nanosecond> {
     #[inline]
     fn from(dt: CrDateTime<Utc>) -> Self {
+        // outside 1677-09-21 .. 2262-04-11 the instant has no nanosecond representation
         dt.timestamp_nanos_opt()
-            .expect("Failed to convert to nanosecond")
-            .into()
+            .map(DateTime::new)
+            .unwrap_or_else(DateTime::nat)
     }
 }
